@@ -136,6 +136,35 @@ def check_batch(items):
         raise Violation("literal:changed_by_as_text", f"keys differ after as_text(): {sorted(set(d) ^ set(d2))[:5]}")
 
 
+def check_builder(items):
+    """items: [(bytes, literal)] - the same byte strings given to the builder API (header / parameter names and values,
+    transform arguments, an option), written out by as_text() and read back through the parser."""
+    from dissect.cobaltstrike import c2profile
+
+    bs = [b for b, _ in items]
+    inner = [lit[1:-1] for _, lit in items]
+    steps = []
+    for b in bs:
+        steps += [("prepend", b), ("append", b)]
+    prof = lib(c2profile.C2Profile, what="C2Profile()")
+    lib(prof.set_option, "useragent", bs[0], what="set_option(bytes)")
+    client = lib(lambda: c2profile.HttpOptionsBlock(header=[(b, b) for b in bs], parameter=[(b, b) for b in bs], metadata=c2profile.DataTransformBlock(steps=steps + ["print"])), what="HttpOptionsBlock(header=..., parameter=..., metadata=...)")
+    lib(prof.set_config_block, "http_get", c2profile.HttpGetBlock(client=client), what="set_config_block")
+    text = lib(prof.as_text, what="as_text (builder)")
+    r = lib(c2profile.C2Profile.from_text, text, allow=(Exception,), what="from_text(builder text)")
+    if isinstance(r, Raised):
+        raise Violation("literal:builder_text_rejected", f"text of a builder-made profile does not parse: {r.exc!r}; bytes {bs[:3]!r}..."[:600])
+    d = lib(r.as_dict, what="as_dict")
+    want = {"useragent": [inner[0]], "http-get.client.header": [(x, x) for x in inner], "http-get.client.parameter": [(x, x) for x in inner], "http-get.client.metadata": [(k, b) for b in bs for k in ("prepend", "append")] + ["print"]}
+    for k, w in want.items():
+        g = [tuple(x) if isinstance(x, list) else x for x in d.get(k, [])]
+        if g != w:
+            i = next((i for i in range(len(w)) if i >= len(g) or g[i] != w[i]), None)
+            raise Violation("literal:builder_roundtrip", f"{k}[{i}]: the builder was given {w[i] if i is not None else w!r}, the printed profile says {g[i:i + 1] if i is not None else g!r}"[:800])
+    extra = set(d) - set(want)
+    check(not extra, "literal:injected_keys", f"unexpected keys {sorted(extra)[:5]} in a builder-made profile (syntax injected by a literal)")
+
+
 def nontrivial(b):
     return any(c in b for c in b"\"\\\n'")
 
@@ -185,6 +214,7 @@ def enum_execute(case, stats):
         embed = [(b, l) for b, l in items if len(b) < 2 or b[0] in keep or b[1] in keep]
     for i in range(0, len(embed), BATCH):
         check_batch(embed[i : i + BATCH])
+        check_builder(embed[i : i + BATCH])
     stats.count("strings_through_parser", len(embed))
     stats.count("strings", len(strings))
     stats.count("nontrivial_strings", sum(1 for b in strings if nontrivial(b)))
@@ -205,6 +235,7 @@ def random_execute(case, stats):
         check_lexer(b, lit)
         items.append((b, lit))
     check_batch(items)
+    check_builder(items)
     stats.note(case, any(nontrivial(b) for b in case["strings"]), classes=["batch%d" % min(len(items) // 5 * 5, 20)])
 
 
@@ -291,6 +322,7 @@ def long_execute(case, stats):
     check_direct(b, lit)
     check_lexer(b, lit)
     check_batch([(b, lit)])
+    check_builder([(b, lit)])
     stats.note(case, True, classes=["long_literal"])
 
 
